@@ -184,6 +184,14 @@ func runC02(c *an.Ctx) {
 				}
 			case *ssa.Call:
 				if sc := x.Call.StaticCallee(); sc != nil && an.IsRepoFunc(sc) {
+					// a helper of the integrator that appends the report to the recent list
+					if recentStore == nil && calledOnlyFrom(p, sc, integ) && len(x.Call.Args) == 2 && fi.Term(x.Call.Args[1]).Key() == R.Key() {
+						for _, w := range p.Effect(sc).WritesSorted() {
+							if strings.Contains(w, "recentReports") {
+								recentStore = x
+							}
+						}
+					}
 					if e := p.Effect(sc); e != nil && e.FileOps["os.OpenFile"] && !strings.Contains(an.FuncName(sc), "Logger") {
 						if len(x.Call.Args) == 2 && fi.Term(x.Call.Args[1]).Key() == R.Key() {
 							saveCall = x
